@@ -164,7 +164,7 @@ def gen_fields(nf, allow_flatten=True):
         opts = []
         f = dict(ident=ident, skip=False, multiple=False, flatten=False, elem=None, post=None, with_=None, default=None)
         # choose a type
-        nested = [t for t in types_by_name.values() if t.depth < 3]
+        nested = [t for t in types_by_name.values() if t.depth < 3 and t.valid]
         roll = rng.random()
         if roll < 0.22 and nested:
             ty = rng.choice(nested)
@@ -364,7 +364,7 @@ def gen_enum(idx):
         kind = rng.choice(["unit", "unit", "newtype", "struct"])
         v["kind"] = kind
         if kind == "newtype":
-            nested = [t for t in types_by_name.values() if t.depth < 3 and not t.rust.startswith("E")]
+            nested = [t for t in types_by_name.values() if t.depth < 3 and t.valid and not t.rust.startswith("E")]
             v["ty"] = rng.choice(nested) if nested and rng.random() < 0.3 else rng.choice(LEAVES)
             depth = max(depth, v["ty"].depth)
         elif kind == "struct":
@@ -419,7 +419,7 @@ def gen_enum(idx):
         if rng.random() < 0.2:
             v["rename"] = rng.choice(["renamed%d" % k, "Weird-Name", "x%d" % k])
             v["opts"].append('rename = "%s"' % v["rename"])
-        if kind == "unit" and not word_used and not v["skip"] and rng.random() < 0.25:
+        if kind == "unit" and not word_used and rng.random() < (0.7 if v["skip"] else 0.3):
             v["word"] = True
             word_used = True
             v["opts"].append(rng.choice(["word", "word", "word = true"]))
